@@ -17,6 +17,12 @@ import json
 from vlib import common, cppdrv, cppsuite, observe, refsem
 
 LEVEL = "exploration"
+
+
+def cppdrv_first_error(err):
+    import re as _re
+    m = _re.search(r"error: (.*)", err or "")
+    return _re.sub(r"'[^']*'", "'X'", m.group(1))[:100] if m else "unknown"
 PID = "C01"
 
 
@@ -73,8 +79,8 @@ def module_case(arg):
         built = cppsuite.Built(d, gm)
         b = built.build("obs", flavour)
         if b is None:
-            out["viol"].append({"mech": "driver-does-not-compile", "what": built.build_errors[("obs", flavour)][-1500:],
-                                "coords": gm["coords"], "text": gm["text"]})
+            # a header + driver that does not compile is C07's observation; here the module is a counted skip
+            out["compile_failed"] = cppdrv_first_error(built.build_errors[("obs", flavour)])
             return out
         out["built"] = True
         tops = [s for s in m.structs if s.kind == "struct"]
@@ -189,6 +195,10 @@ def run(ctx):
         v = val["val"]
         ctx.count("modules")
         ctx.count("modules_built", 1 if v["built"] else 0)
+        if v.get("compile_failed"):
+            ctx.count("modules_skipped_driver_does_not_compile")
+            ctx.extra.setdefault("compile_failures", {}).setdefault(v["compile_failed"], 0)
+            ctx.extra["compile_failures"][v["compile_failed"]] += 1
         ctx.count("generator_rejects", v["rejected"])
         ctx.evaluations += v["cases"]
         ctx.count("observation_records", v["cases"])
